@@ -98,6 +98,7 @@ def check_trace(prog, trace, mdl, part, extra=False, idnmsgs=None, src="hist", f
     led = trace[-1][-1] == 1
     create_failures = 0
     pending_failed_setup = False
+    prev_excess, grow_run = None, 0
     for op, st in zip(prog, trace[:-1]):
         kind = st[0]
         if op[0] == "r" or op[0] == "F" or op[0] == "C":
@@ -191,9 +192,26 @@ def check_trace(prog, trace, mdl, part, extra=False, idnmsgs=None, src="hist", f
                         diff = [fields[i] for i in range(8) if obs[i] != cr[i]] or ["shape"]
                         part["viol"].append(("history-dependence/vs-new-process/%s" % "+".join(diff), wit,
                                              {"step": op, "long_lived_process": obs[:8], "new_process": cr, "source": src}))
-            if led and live != expblocks:
-                part["viol"].append(("ledger/live-blocks-after-is_email/%+d" % (live - expblocks), wit,
-                                     {"step": op, "live": live, "expected": expblocks, "source": src}))
+            if led:
+                # blocks the library holds after the call, beyond the current result record.  An object may keep scratch memory until
+                # eav_free (what is still live after eav_free / at the end is judged there); what the statements exclude is memory that is
+                # never released (seen at eav_free) and a previous result record that outlives the next call - i.e. an excess that
+                # *keeps growing* from call to call.  Fewer blocks than the current record needs means the record was freed under it.
+                excess = live - expblocks
+                if excess < 0:
+                    part["viol"].append(("ledger/result-record-not-live-after-is_email/%+d" % excess, wit,
+                                         {"step": op, "live": live, "expected": expblocks, "source": src}))
+                if excess > 0:
+                    cnt["ledger.calls-with-extra-live-blocks"] += 1
+                if prev_excess is not None and excess > prev_excess:
+                    grow_run += 1
+                    if grow_run >= 3:
+                        part["viol"].append(("ledger/live-blocks-grow-with-every-call", wit,
+                                             {"step": op, "live": live, "expected": expblocks, "source": src}))
+                        grow_run = 0
+                elif prev_excess is not None and excess < prev_excess:
+                    grow_run = 0
+                prev_excess = excess
             last_msg, last_err = obs[2], obs[1]
             pending_failed_setup = False
         elif op == "m":
@@ -210,6 +228,7 @@ def check_trace(prog, trace, mdl, part, extra=False, idnmsgs=None, src="hist", f
             confirmed, tld, allow = -1, 1, mdl.default_allow
             last_msg = None
             pending_failed_setup = False
+            prev_excess, grow_run = None, 0
     end = trace[-1]
     if led and end[1] != 0:
         part["viol"].append(("ledger/live-blocks-at-end/%+d" % end[1], wit, {"live": end[1], "source": src}))
